@@ -145,9 +145,38 @@ func (g *c01Gen) term(d int) *gt {
 
 func (g *c01Gen) list(d int, partial bool) *gt {
 	n := g.r.Intn(4)
+	if g.r.Intn(25) == 0 {
+		return g.longList(partial)
+	}
 	es := make([]*gt, n)
 	for i := range es {
 		es[i] = g.term(d)
+	}
+	if partial {
+		return gList(es, g.variable())
+	}
+	return gList(es, gAtom("[]"))
+}
+
+// longList: a long literal (the engine treats lists beyond 8 elements differently in places): mostly
+// constants, clause variables INSIDE compound elements, in half of them also as elements
+func (g *c01Gen) longList(partial bool) *gt {
+	n := 9 + g.r.Intn(6)
+	es := make([]*gt, n)
+	bare := g.r.Intn(2) == 0
+	for i := range es {
+		switch k := g.r.Intn(10); {
+		case k == 0 || i == n/2:
+			es[i] = gApp("f", g.variable())
+		case k == 1:
+			es[i] = gApp("g", g.variable(), g.atomic())
+		case k == 2 && bare:
+			es[i] = g.variable()
+		case k == 3:
+			es[i] = gList([]*gt{g.atomic()}, gAtom("[]"))
+		default:
+			es[i] = g.atomic()
+		}
 	}
 	if partial {
 		return gList(es, g.variable())
@@ -236,6 +265,10 @@ func (g *c01Gen) goal(from, d int) *gt {
 	case k < 40:
 		return userCall()
 	case k < 52:
+		if g.r.Intn(6) == 0 {
+			// a structure built in the body around the clause's variables and handed out through one of them
+			return gApp("=", g.variable(), g.longList(g.r.Intn(8) == 0))
+		}
 		return gApp("=", g.variable(), g.term(2))
 	case k < 55:
 		return gApp("between", gInt(int64(g.r.Intn(2))), gInt(int64(1+g.r.Intn(2))), g.variable())
@@ -327,6 +360,17 @@ func (g *c01Gen) clausesOf(i int) []*gt {
 	if p.kind == 0 || p.arity == 0 {
 		for c := 0; c < n; c++ {
 			g.nvars = 0
+			if p.arity >= 2 && g.r.Intn(8) == 0 {
+				// a record constructor: distinct head variables, the first one bound in the body to a long
+				// literal built around the others
+				as := make([]*gt, p.arity)
+				for j := range as {
+					as[j] = g.newVar()
+				}
+				l := g.longList(false)
+				out = append(out, gClause(refMk(p.name, as), append([]*gt{gApp("=", as[0], l)}, g.body(i+1, 1)...)...))
+				continue
+			}
 			h := refMk(p.name, g.args(p.arity, 2))
 			out = append(out, gClause(h, g.body(i+1, 3)...))
 		}
